@@ -48,6 +48,11 @@ REGISTRY = {
              explanation='PROVED: find_closest_modality returns an in-range order neighbour of the rare modality (so merging never skips a bucket). BOUNDED: find_quantiles at function level, '
                          'EXHAUSTIVE over all count vectors up to the stated size plus seeded larger arrays (strictly increasing observed values, frequent values are boundaries, 2.5*len/q bucket bound); '
                          'fitted Discretizer family: ordinal buckets >= min_freq, quantitative >= min_freq/2 unless single, categorical default group iff rarer than min_freq, NaN separate.'),
+ 'C12': dict(level='other', P=[], S=['contracts.forwarding:multiclass_obligations'], R=['rtc.c12_multiclass'],
+             explanation='PROVED on the program text (syntactic contract checks, back end ast): the single BinaryCarver(...) construction in MulticlassCarver.fit receives every constructor parameter '
+                         'that MulticlassCarver accepts as self.<p> plus **self.kwargs, MulticlassCarver.__init__ forwards every parameter to BaseCarver.__init__, which stores it. '
+                         'BOUNDED: column-by-column equality of MulticlassCarver.transform with independently fitted BinaryCarvers on 1[y=c] (kept iff kept), raw columns unchanged, '
+                         'classes = all but the first in string order (numeric labels 9/10/11 included).'),
  'C13': dict(level='proof', P=[GL_ALL], R=['rtc.c13_grouped_list'],
              explanation='GroupedList: representation invariant WF established by the three constructors and preserved by every mutating method, exact effect of each '
                          'operation on the abstract view (ordered leader -> members), observers equal to their definition over the view: proved for all inputs by engine P '
